@@ -321,11 +321,12 @@ def g10_sure_losers(rng, big=False):
 _BLT_CACHE = None
 
 
-def g9_real_files(rng, big=False, repo='/repo'):
+def g9_real_files(rng, big=False, repo=None):
     "files from test/blt with lines dropped / duplicated, seats changed, ties re-ordered"
     global _BLT_CACHE
     import os, glob
-    from .harness import ElectionProfile
+    from .harness import ElectionProfile, REPO
+    repo = repo or REPO
     if _BLT_CACHE is None:
         _BLT_CACHE = []
         for path in sorted(glob.glob(os.path.join(repo, 'test', 'blt', '**', '*.blt'), recursive=True)):
